@@ -93,6 +93,24 @@ class LinTied(_Base):
         return out
 
 
+class LinOffset(_Base):
+    """Linear decision function on a large intercept (raw output ~ 2e6 +- a few units)."""
+
+    def decision_function(self, X):
+        out = self._raw(X) + 2.0e6
+        _emit(self.log, (self._token(), "predict", np.asarray(X)[:, -1].astype(np.int64).copy(), out.copy()))
+        return out
+
+
+class LinTiny(_Base):
+    """Linear decision function on a tiny scale (raw output ~ 1e-10)."""
+
+    def decision_function(self, X):
+        out = self._raw(X) * 1.0e-10
+        _emit(self.log, (self._token(), "predict", np.asarray(X)[:, -1].astype(np.int64).copy(), out.copy()))
+        return out
+
+
 class Cubic(_Base):
     """A monotone non-linear decision function."""
 
